@@ -299,3 +299,249 @@ Example C18_witness_buffer_closed_form :
   /\ emitted (fst (run all_imm (x_buffer_count 2 3) (src_events [1; 2; 3; 4; 5; 6] TDone)))
      = [Next [1; 2]; Next [4; 5]; Done].
 Proof. vm_compute. auto. Qed.
+
+(* ======================= round 8: whole-run forms (count, time, closing selector, toggle) ======================= *)
+From RxVerif Require Import Ops.WindowCountRun Ops.WinSim Ops.WindowTimeSim Ops.BufferTimeSim Ops.WindowWhenRun
+  Ops.WindowToggleRun Ops.BufferToggleRun.
+From RxVerif Require Ops.TimedSim.
+From Coq Require Import Sorting.Sorted.
+
+(* ---- window_with_count: the WHOLE position-tagged trace of a conforming run (Ops/WindowCountRun.v) ---- *)
+(* what the runner observes at input position n+1 (the element with index n) depends on n alone: the
+   element goes to the windows lo(n) .. nx(n)-1 in opening order (lo(n) = #{k | k*skip+count <= n},
+   nx(n) = #{k | k*skip <= n}), then window lo(n) completes iff n = lo(n)*skip+count-1, then window
+   nx(n) is handed iff n+1 = nx(n)*skip; the source's terminal goes to the open windows in order, then
+   to the outer subscriber, and the source subscription is released *)
+Theorem C18_window_count_trace : forall A B count skip, 0 < count -> 0 < skip -> forall (xs : list A) (tm : term),
+  fst (run all_imm (x_window_count (A:=A) (B:=B) count skip) (src_events xs tm))
+  = [(0%nat, OHand 0%nat 0); (0%nat, OSub 0%nat)] ++ wc_trace_from count skip 0 1 xs tm.
+Proof. exact @window_count_trace. Qed.
+Print Assumptions C18_window_count_trace.
+(* readings: which notification reaches window k at which input position *)
+Theorem C18_window_count_next_at : forall A B count skip, 0 < count -> 0 < skip ->
+  forall (xs : list A) (tm : term) (k p : nat) (x : A),
+  In (p, OWin k (Next x)) (fst (run all_imm (x_window_count (A:=A) (B:=B) count skip) (src_events xs tm)))
+  <-> exists n, p = S n /\ nth_error xs n = Some x /\ wopen count skip k (Z.of_nat n) = true.
+Proof. exact @window_count_next_at. Qed.
+(* window k completes in the very on_next call that delivers its last element (index k*skip+count-1,
+   position k*skip+count), or with the source's completion if it is open then *)
+Theorem C18_window_count_done_at : forall A B count skip, 0 < count -> 0 < skip ->
+  forall (xs : list A) (tm : term) (k p : nat),
+  In (p, OWin k Done) (fst (run all_imm (x_window_count (A:=A) (B:=B) count skip) (src_events xs tm)))
+  <-> (Z.of_nat p = Z.of_nat k * skip + count /\ Z.of_nat p <= zlen xs)
+      \/ (tm = TDone /\ p = S (length xs) /\ wopen count skip k (zlen xs) = true).
+Proof. exact @window_count_done_at. Qed.
+(* the source's error reaches exactly the windows open when it arrives ... *)
+Theorem C18_window_count_error_at : forall A B count skip, 0 < count -> 0 < skip ->
+  forall (xs : list A) (tm : term) (k p : nat) (z : Z),
+  In (p, OWin k (Err z)) (fst (run all_imm (x_window_count (A:=A) (B:=B) count skip) (src_events xs tm)))
+  <-> tm = TErr z /\ p = S (length xs) /\ wopen count skip k (zlen xs) = true.
+Proof. exact @window_count_error_at. Qed.
+(* ... and the outer subscriber, which otherwise sees only the handed windows *)
+Theorem C18_window_count_outer_at : forall A B count skip, 0 < count -> 0 < skip ->
+  forall (xs : list A) (tm : term) (p : nat) (e : ev B),
+  In (p, OEmit e) (fst (run all_imm (x_window_count (A:=A) (B:=B) count skip) (src_events xs tm)))
+  <-> p = S (length xs) /\ In e (term_ev tm).
+Proof. exact @window_count_outer_at. Qed.
+(* window k >= 1 is handed inside the on_next of the element with index k*skip-1 (window 0: inside subscribe) *)
+Theorem C18_window_count_hand_at : forall A B count skip, 0 < count -> 0 < skip ->
+  forall (xs : list A) (tm : term) (k : nat) (key : Z) (p : nat),
+  In (p, OHand k key) (fst (run all_imm (x_window_count (A:=A) (B:=B) count skip) (src_events xs tm)))
+  <-> key = 0 /\ Z.of_nat p = Z.of_nat k * skip /\ Z.of_nat p <= zlen xs.
+Proof. exact @window_count_hand_at. Qed.
+Print Assumptions C18_window_count_next_at.
+Print Assumptions C18_window_count_done_at.
+Print Assumptions C18_window_count_error_at.
+Print Assumptions C18_window_count_outer_at.
+Print Assumptions C18_window_count_hand_at.
+Example C18_witness_count_trace :
+  fst (run all_imm (x_window_count (B:=unit) 2 3) (src_events [10; 11; 12; 13] (TErr 7)))
+  = [(0%nat, OHand 0%nat 0); (0%nat, OSub 0%nat); (1%nat, OWin 0%nat (Next 10)); (2%nat, OWin 0%nat (Next 11));
+     (2%nat, OWin 0%nat Done); (3%nat, OHand 1%nat 0); (4%nat, OWin 1%nat (Next 13)); (5%nat, OWin 1%nat (Err 7));
+     (5%nat, OEmit (Err 7)); (5%nat, OUnsub 0%nat)].
+Proof. vm_compute. reflexivity. Qed.
+
+(* ---- time windows / buffers in a CLOSED WORLD (Ops/WinSim.v: the simulator of C16 over the window
+   runner; timers fire exactly at their due time; at equal instants the source goes first) ---- *)
+(* a simulation is a run of the machine on the inputs it delivered *)
+Theorem C18_sim_is_run : forall A W B (imm : nat -> bool) (m : machine A W B) fuel t0 ext,
+  fst (run imm m (wsim_inputs (snd (wsimulate imm m fuel t0 ext)))) = wsim_trace (wsimulate imm m fuel t0 ext).
+Proof. exact @wsim_is_run. Qed.
+Print Assumptions C18_sim_is_run.
+(* (a) for EVERY event sequence on the source port and every horizon, the simulation of window_with_time is
+   a walk that carries only the number a of shift edges and b of span edges that have fired: the pending
+   timer is due at t0 + min((a+1)*shift, span+b*shift); an event at t is delivered before it iff t <= that
+   instant, to the windows b..a *)
+Theorem C18_window_time_walk : forall A B span shift t0, 0 < span -> 0 < shift -> forall fuel (es : list (Z * ev A)),
+  wsimulate all_imm (x_window_time (A:=A) (B:=B) span shift) fuel t0 (wext_of es)
+  = ([OHand 0%nat 0; OTimer 0%nat (Z.min shift span); OSub 0%nat], wt_walk span shift t0 fuel 0 0 0 es).
+Proof. exact @window_time_walk. Qed.
+Print Assumptions C18_window_time_walk.
+(* (b) sorted conforming timeline (terminating or not): window k receives exactly the elements whose
+   instant t lies in its interval -- [in_win]: k*shift < t-t0 <= k*shift+span, window 0: t-t0 <= span; an
+   element AT an opening edge is not in the new window, an element AT a closing edge still is -- each at
+   its instant; it completes at t0+k*shift+span if that is strictly before the source's terminal (or the
+   source never ends), ends with the source's terminal if that lies in its interval, and does not exist
+   otherwise ([wt_ending]) *)
+Theorem C18_window_time_contents : forall A B span shift t0, 0 < span -> 0 < shift ->
+  forall (tl : list (Z * A)) (tm : TimedSim.tterm) (k fuel : nat),
+  TimedSim.sorted_from t0 (wsrc tl tm) ->
+  (length tl + 1 + Z.to_nat (span + Z.of_nat k * shift) <= fuel)%nat ->
+  wsim_wevents k (snd (wsimulate all_imm (x_window_time (A:=A) (B:=B) span shift) fuel t0 (wext_of (wsrc tl tm))))
+  = map (fun tx => (fst tx, Next (snd tx))) (wt_contents span shift t0 k tl) ++ wt_ending span shift t0 k tm.
+Proof. exact @window_time_contents. Qed.
+Print Assumptions C18_window_time_contents.
+(* the outer subscriber of a terminating timeline: window k >= 1 is handed at t0+k*shift iff k*shift < T-t0,
+   in the order of k; then the source's terminal *)
+Theorem C18_window_time_outer : forall A B span shift t0, 0 < span -> 0 < shift ->
+  forall (tl : list (Z * A)) (tm : TimedSim.tterm) (T : Z) (e : ev A) (fuel : nat),
+  tm_ev tm = [(T, e)] -> TimedSim.sorted_from t0 (wsrc tl tm) -> (length tl + 1 + Z.to_nat (T - t0) <= fuel)%nat ->
+  wsim_outer (snd (wsimulate all_imm (x_window_time (A:=A) (B:=B) span shift) fuel t0 (wext_of (wsrc tl tm))))
+  = map (fun k => (t0 + Z.of_nat k * shift, OHand k 0)) (seq 1 (n_open shift (T - t0) - 1))
+    ++ [(T, OEmit (out_term e))].
+Proof. exact @window_time_outer. Qed.
+Print Assumptions C18_window_time_outer.
+Theorem C18_time_windows_opened : forall shift, 0 < shift -> forall tau k,
+  (k < n_open shift tau)%nat <-> k = 0%nat \/ Z.of_nat k * shift < tau.
+Proof. exact WindowTimeSim.n_open_spec. Qed.
+Theorem C18_time_windows_closed : forall span shift, 0 < shift -> forall tau k,
+  (k < n_closed span shift tau)%nat <-> span + Z.of_nat k * shift < tau.
+Proof. exact WindowTimeSim.n_closed_spec. Qed.
+Print Assumptions C18_time_windows_opened.
+Print Assumptions C18_time_windows_closed.
+(* buffer_with_time: (a) the walk, (b) all buffers of a terminating timeline, in the order of k: buffer k
+   (= the elements in k's interval) is emitted at its closing edge if that is strictly before the source's
+   completion, the still open ones -- empty ones included -- at the completion, then Done; a failing source
+   emits only the buffers closed before the error, then the error *)
+Theorem C18_buffer_time_walk : forall A span shift t0, 0 < span -> 0 < shift -> forall fuel (es : list (Z * ev A)),
+  wsimulate all_imm (x_buffer_time (A:=A) span shift) fuel t0 (wext_of es)
+  = ([OTimer 0%nat (Z.min shift span); OSub 0%nat], bt_walk span shift t0 fuel 0 0 0 [(0%nat, [])] es).
+Proof. exact @buffer_time_walk. Qed.
+Theorem C18_buffer_time_closed_form : forall A span shift t0, 0 < span -> 0 < shift ->
+  forall (tl : list (Z * A)) (T : Z) (fuel : nat),
+  TimedSim.sorted_from t0 (wsrc tl (TimedSim.TTDone T)) -> (length tl + 1 + Z.to_nat (T - t0) <= fuel)%nat ->
+  wsim_emitted (snd (wsimulate all_imm (x_buffer_time (A:=A) span shift) fuel t0 (wext_of (wsrc tl (TimedSim.TTDone T)))))
+  = map (fun k => (Z.min (t0 + (span + Z.of_nat k * shift)) T, Next (bt_buffer span shift t0 k tl)))
+        (seq 0 (n_open shift (T - t0)))
+    ++ [(T, Done)].
+Proof. exact @buffer_time_completing. Qed.
+Theorem C18_buffer_time_closed_form_error : forall A span shift t0, 0 < span -> 0 < shift ->
+  forall (tl : list (Z * A)) (T z : Z) (fuel : nat),
+  TimedSim.sorted_from t0 (wsrc tl (TimedSim.TTErr T z)) -> (length tl + 1 + Z.to_nat (T - t0) <= fuel)%nat ->
+  wsim_emitted (snd (wsimulate all_imm (x_buffer_time (A:=A) span shift) fuel t0 (wext_of (wsrc tl (TimedSim.TTErr T z)))))
+  = map (fun k => (t0 + (span + Z.of_nat k * shift), Next (bt_buffer span shift t0 k tl)))
+        (seq 0 (n_closed span shift (T - t0)))
+    ++ [(T, Err z)].
+Proof. exact @buffer_time_failing. Qed.
+Print Assumptions C18_buffer_time_walk.
+Print Assumptions C18_buffer_time_closed_form.
+Print Assumptions C18_buffer_time_closed_form_error.
+(* the hypotheses are satisfiable, edge instants included: span 30, shift 20 (overlapping); 2 arrives AT the
+   opening edge of window 1 (not in it), 3 AT the closing edge of window 0 (in it), 4 and 5 AT the closing
+   edge of window 1 *)
+Example C18_witness_time_sorted :
+  TimedSim.sorted_from 0 (wsrc [(5, 1); (20, 2); (30, 3); (50, 4); (50, 5)] (TimedSim.TTDone 55)).
+Proof. cbn. lia. Qed.
+Example C18_witness_time_windows :
+  map (fun k => wsim_wevents k (snd (wsimulate all_imm (x_window_time (B:=unit) 30 20) 40 0
+                 (wext_of (wsrc [(5, 1); (20, 2); (30, 3); (50, 4); (50, 5)] (TimedSim.TTDone 55))))))
+      [0; 1; 2; 3]%nat
+  = [[(5, Next 1); (20, Next 2); (30, Next 3); (30, Done)];
+     [(30, Next 3); (50, Next 4); (50, Next 5); (50, Done)];
+     [(50, Next 4); (50, Next 5); (55, Done)]; []].
+Proof. vm_compute. reflexivity. Qed.
+Example C18_witness_time_buffers :
+  wsim_emitted (snd (wsimulate all_imm (x_buffer_time 30 20) 40 0
+     (wext_of (wsrc [(5, 1); (20, 2); (30, 3); (50, 4); (50, 5)] (TimedSim.TTDone 55)))))
+  = [(30, Next [1; 2; 3]); (50, Next [3; 4; 5]); (55, Next [4; 5]); (55, Done)]
+  /\ wsim_emitted (snd (wsimulate all_imm (x_buffer_time 30 20) 40 0
+       (wext_of (wsrc [(5, 1); (20, 2); (30, 3); (50, 4); (50, 5)] (TimedSim.TTErr 50 7)))))
+     = [(30, Next [1; 2; 3]); (50, Err 7)].
+Proof. vm_compute. auto. Qed.
+
+(* ---- closing selector (window_when / buffer_when), ALL interleavings of the ports (Ops/WindowWhenRun.v) ---- *)
+(* port 0 = source, port g+1 = the closing observable made for window g.  The whole trace is a walk whose
+   state is the index g of the current window: only the closing observable of the CURRENT window is listened
+   to; its first notification (element or completion) completes window g, hands window g+1, disposes that
+   subscription and subscribes a NEW closing observable made by the (g+1)-th call of the mapper; errors of
+   the source / the current closing observable go to window g and the outer; a raising mapper ends the outer
+   while the window just handed stays open (fed by the source until it terminates) *)
+Theorem C18_window_when_run : forall A B (mapper : nat -> res unit) (ins : list (Z * nat * ev A)),
+  fst (run all_imm (x_window_when (A:=A) (B:=B) mapper) (wports ins))
+  = ww_start mapper ++ ww_walk mapper (match mapper 0%nat with Ok _ => true | Raise _ => false end) 0 1 ins.
+Proof. exact @window_when_run. Qed.
+Theorem C18_buffer_when_run : forall A (mapper : nat -> res unit) (ins : list (Z * nat * ev A)),
+  fst (run all_imm (x_buffer_when (A:=A) mapper) (wports ins)) = bw_out mapper ins.
+Proof. exact @buffer_when_run. Qed.
+Print Assumptions C18_window_when_run.
+Print Assumptions C18_buffer_when_run.
+(* windows partition the source: the elements delivered on windows are, in trace order, a prefix of the
+   source's elements (each element in ONE window, nothing invented or reordered) and the window index never
+   decreases; nothing is lost while nothing fails and the source has not completed *)
+Theorem C18_window_when_partition : forall A B (mapper : nat -> res unit) (ins : list (Z * nat * ev A)),
+  let tr := fst (run all_imm (x_window_when (A:=A) (B:=B) mapper) (wports ins)) in
+  (exists rest, src_nexts ins = map snd (routed tr) ++ rest)
+  /\ StronglySorted (fun p q : nat * A => (fst p <= fst q)%nat) (routed tr).
+Proof. exact @window_when_partition. Qed.
+Theorem C18_window_when_no_loss : forall A B (mapper : nat -> res unit) (ins : list (Z * nat * ev A)),
+  no_err ins -> src_open ins ->
+  map snd (routed (fst (run all_imm (x_window_when (A:=A) (B:=B) mapper) (wports ins)))) = src_nexts ins.
+Proof. exact @window_when_no_loss. Qed.
+(* buffers partition the source: with a mapper that does not raise and no error, the buffers emitted up to
+   and at the source's completion, concatenated, are exactly the source's elements; then Done *)
+Theorem C18_buffer_when_partition : forall A (mapper : nat -> res unit) (body : list (Z * nat * ev A)) (tD : Z),
+  (forall j, exists u, mapper j = Ok u) -> no_err body -> src_open body ->
+  exists bufs, emitted (fst (run all_imm (x_buffer_when (A:=A) mapper) (wports (body ++ [(tD, 0%nat, Done)]))))
+               = map Next bufs ++ [Done]
+               /\ concat bufs = src_nexts body.
+Proof. exact @buffer_when_partition. Qed.
+Print Assumptions C18_window_when_partition.
+Print Assumptions C18_window_when_no_loss.
+Print Assumptions C18_buffer_when_partition.
+Example C18_witness_when :
+  let mp := fun j : nat => if Nat.eqb j 3 then Raise 9 else Ok tt in
+  let ins := [(0, 0%nat, Next 1); (0, 2%nat, Next 5); (0, 1%nat, Done); (0, 0%nat, Next 2); (0, 1%nat, Next 7);
+              (0, 2%nat, Next 0); (0, 0%nat, Next 3); (0, 3%nat, Next 0); (0, 0%nat, Next 4); (0, 0%nat, Done);
+              (0, 0%nat, Next 4)] in
+  routed (fst (run all_imm (x_window_when (B:=unit) mp) (wports ins))) = [(0%nat, 1); (1%nat, 2); (2%nat, 3); (3%nat, 4)]
+  /\ emitted (fst (run all_imm (x_buffer_when mp) (wports ins))) = [Next [1]; Next [2]; Next [3]; Err 9].
+Proof. vm_compute. auto. Qed.
+
+(* ---- toggle (window_toggle / buffer_toggle), ALL interleavings of the ports (Ops/WindowToggleRun.v,
+   Ops/BufferToggleRun.v) ---- *)
+(* port 0 = source, port 1 = openings, port 2+g = the closing observable made for window g.  What the
+   subscribers see ([visible]: handed windows, window notifications, outer notifications) is a walk whose
+   state is: source / openings still listened to, and the windows whose closing observable is subscribed,
+   flagged open or not: an element goes to exactly the open windows, in opening order; an opening hands a
+   new window and subscribes a NEW closing observable; the first notification of window g's closing
+   observable completes exactly g; the source's completion completes every open window; the openings'
+   completion completes the outer; an error anywhere goes to every open window and the outer *)
+Theorem C18_window_toggle_run : forall A B (mapper : nat -> res unit) (ins : list (Z * nat * ev A)),
+  visible (fst (run all_imm (x_window_toggle (A:=A) (B:=B) mapper) (wports ins)))
+  = tg_walk mapper true true [] 0 1 ins.
+Proof. exact @window_toggle_run. Qed.
+(* buffers: an element is appended to every open buffer; a closing observable's first notification emits
+   its buffer; the source's completion emits all open buffers in opening order; the result completes when
+   the openings have completed and no buffer is open; any error fails the result *)
+Theorem C18_buffer_toggle_run : forall A (mapper : nat -> res unit) (ins : list (Z * nat * ev A)),
+  visible (fst (run all_imm (x_buffer_toggle (A:=A) mapper) (wports ins)))
+  = bg_walk mapper true true [] 0 1 ins.
+Proof. exact @buffer_toggle_run. Qed.
+Print Assumptions C18_window_toggle_run.
+Print Assumptions C18_buffer_toggle_run.
+Example C18_witness_toggle :
+  let mp := fun _ : nat => Ok tt in
+  let ins := [(0, 1%nat, Next 5); (0, 0%nat, Next 2); (0, 0%nat, Done); (0, 1%nat, Next 7); (0, 0%nat, Next 3);
+              (0, 2%nat, Next 0); (0, 1%nat, Done); (0, 3%nat, Done); (0, 0%nat, Next 4)] in
+  visible (fst (run all_imm (x_window_toggle (B:=unit) mp) (wports ins)))
+  = [(1%nat, OHand 0%nat 0); (2%nat, OWin 0%nat (Next 2)); (3%nat, OWin 0%nat Done); (4%nat, OHand 1%nat 0);
+     (7%nat, OEmit Done); (8%nat, OWin 1%nat Done)]
+  /\ visible (fst (run all_imm (x_buffer_toggle mp) (wports ins)))
+     = [(3%nat, OEmit (Next [2])); (8%nat, OEmit (Next [])); (8%nat, OEmit Done)].
+Proof. vm_compute. auto. Qed.
+(* a reading: every element a window of window_toggle receives is the source's element of that very input *)
+Theorem C18_window_toggle_element_origin : forall A B (mapper : nat -> res unit) (ins : list (Z * nat * ev A)) p j x,
+  In (p, OWin j (Next x)) (fst (run all_imm (x_window_toggle (A:=A) (B:=B) mapper) (wports ins))) ->
+  (1 <= p)%nat /\ exists t, nth_error ins (p - 1) = Some (t, 0%nat, Next x).
+Proof. exact @window_toggle_element_origin. Qed.
+Print Assumptions C18_window_toggle_element_origin.
